@@ -488,8 +488,26 @@ def _llvm_func_texts() -> list[tuple[str, str]]:
     return out
 
 
+def _affine_texts() -> list[tuple[str, str]]:
+    """affine access operations whose map needs parentheses in the custom form, resp. binds symbols
+    after dimensions (judged by the access-function oracle of c05_affine: the custom parser renames
+    dimensions to symbols, so the `map` property itself differs by a listed known finding)"""
+    head = ('%m = "test.op"() : () -> memref<64xf32>\n%i = "test.op"() : () -> index\n%j = "test.op"() : () -> index\n'
+            '%v = "test.op"() : () -> f32\n')
+    prec = head + (
+        '%0 = "affine.load"(%m, %i, %j) <{map = affine_map<(d0, d1) -> ((d0 + d1) floordiv 4)>}> : (memref<64xf32>, index, index) -> f32\n'
+        '%1 = "affine.load"(%m, %i) <{map = affine_map<(d0) -> ((d0 + 3) mod 4 * 2)>}> : (memref<64xf32>, index) -> f32\n'
+        '"affine.store"(%v, %m, %i, %j) <{map = affine_map<(d0, d1) -> ((d0 * 3 + d1 + 1) ceildiv 8)>}> : (f32, memref<64xf32>, index, index) -> ()\n'
+        '%2 = "affine.vector_load"(%m, %j, %i) <{map = affine_map<(d0, d1) -> (((d0 + 5) floordiv 2 + d1) mod 16)>}> : (memref<64xf32>, index, index) -> vector<4xf32>\n'
+        '%3 = "affine.load"(%m, %i, %j) <{map = affine_map<(d0, d1) -> (d0 * 2 + d1 mod 4)>}> : (memref<64xf32>, index, index) -> f32\n')
+    syms = head + (
+        '%0 = "affine.load"(%m, %i, %j) <{map = affine_map<(d0)[s0] -> (d0 + s0 * 2)>}> : (memref<64xf32>, index, index) -> f32\n'
+        '"affine.store"(%v, %m, %j, %i) <{map = affine_map<(d0)[s0] -> (s0 mod 8)>}> : (f32, memref<64xf32>, index, index) -> ()\n')
+    return [("affine/access-map-parentheses", prec), ("affine/access-map-dims-and-symbols", syms)]
+
+
 def text_catalogue() -> list[tuple[str, str]]:
-    return _transfer_texts() + _func_texts() + _llvm_func_texts()
+    return _transfer_texts() + _func_texts() + _llvm_func_texts() + _affine_texts()
 
 
 def run_text_catalogue(ctx: core.Ctx, check_module) -> None:
